@@ -598,6 +598,10 @@ def parse_new_sample_type(body):
                 if tr in traits_seen:
                     p.err(f"impl {tr} twice")
                 traits_seen.append(tr)
+                if tr not in MODELLED_TRAITS and tr not in UNMODELLED_TRAITS:
+                    p.err(f"impl of trait ::core::ops::{tr} is unknown to the translator")
+                if tr == "Neg":
+                    p.err("impl of Neg inside new_sample_type! (the translator knows it in impl_neg! only)")
                 unary = tr in ("Not", "Neg")
                 if not unary:
                     p.eat_seq("< $T >")
